@@ -165,19 +165,22 @@ Proof. exact expr_guard_satisfiable. Qed.
 Print Assumptions C02_expr_guard_satisfiable.
 
 (* ---- all-column comparisons (free-text number N = `*=N`, `*<N`, ...) and the block / column plan ---- *)
-(* AAny o l: "some field of the event satisfies  field o l".  It is covered by C02_select_exact_guarded (guard: every
-   field inside cmp_guard, not under a NOT).  Under a NOT deMorgansLaw flips the operator of the terminal, which is
-   again evaluated as "some field ...": FULL STATEMENT (false) NOT a is the complement of a; witness {a:404, b:1} is
-   returned by `404` and by `NOT 404` (reproduced on the real system: known class negated_allcolumn_number). *)
-Theorem C02_not_allcolumn_refuted :
-  exists a tr evs ev, In ev evs /\ In ev (impl_select a tr evs) /\ In ev (impl_select (ENot a) tr evs).
-Proof. exact not_allcolumn_refuted. Qed.
-Print Assumptions C02_not_allcolumn_refuted.
+(* AAny o l neg: "some field of the event satisfies  field o l", negated when neg.  It is covered by
+   C02_select_exact_guarded (guard: every field inside cmp_guard).  NOT keeps the operator and negates the result
+   (Comparison.Negated -> ExpressionFilter.NegateMatch -> SearchQuery.IsNegated), so NOT a is the complement of a for
+   EVERY operator, literal and record list, without a guard.  (Before "fix: NOT on an all-column comparison with a
+   number ..." deMorgansLaw flipped the operator of `*=404` and `*!=404` was "some column differs": {a:404, b:1} was
+   returned by `404` and by `NOT 404`; the harness keeps the stream, a regression is class negated_allcolumn_number.) *)
+Theorem C02_not_allcolumn_is_complement : forall o l n tr evs ev,
+  In ev (impl_select (ENot (EAtom (AAny o l n))) tr evs) <->
+  In ev evs /\ check_in_range tr (ev_ts ev) = true /\ ~ In ev (impl_select (EAtom (AAny o l n)) tr evs).
+Proof. exact not_allcolumn_is_complement. Qed.
+Print Assumptions C02_not_allcolumn_is_complement.
 
 Theorem C02_allcolumn_guard_satisfiable :
-  let e := EOr (EAtom (AAny Eq (LNum (NLInt 404)))) (EAtom (AAny Eq (LNum (NLInt 500)))) in
+  let e := EOr (EAtom (AAny Eq (LNum (NLInt 404)) false)) (ENot (EAtom (AAny Eq (LNum (NLInt 500)) false))) in
   let ev := mkEv 1%N 11 [(0%N, SInt 1); (1%N, SInt 200); (2%N, SInt 500); (3%N, SStr [97]%N)] in
-  expr_guard false e ev = true /\ ev_wf ev = true /\ expr_wf e = true /\ spec_eval e ev = true.
+  expr_guard false e ev = true /\ ev_wf ev = true /\ expr_wf e = true /\ spec_eval e ev = false.
 Proof. repeat split; vm_compute; reflexivity. Qed.
 Print Assumptions C02_allcolumn_guard_satisfiable.
 
@@ -214,7 +217,7 @@ Print Assumptions C02_union_cols_is_union.
 
 (* MAIN (planning layer): for EVERY expression, time range and block layout (distinct block numbers), and every
    micro-index check that is sound for the leaves of the expression on the blocks (a dropped block holds no record the
-   leaf matches; the columns that passed suffice for the leaf -- discharged for range entries and blooms by C03), the
+   leaf matches, whatever columns are read; the columns that passed suffice for the leaf -- discharged for range entries and blooms by C03), the
    search that (1) builds one block -> columns plan per leaf (time filter + micro index), (2) merges the plans through
    the AND / OR tree with JoinRequest (first request of a file taken as is), (3) runs the whole tree on each block of the
    merged plan with all-column comparisons reading only the block's candidate columns, selects exactly the records the
@@ -246,8 +249,8 @@ Print Assumptions C02_plan_and_is_intersection.
    a merge that keeps the receiver's columns of a block both operands kept loses the record that matches through column 2 *)
 Theorem C02_plan_union_needed :
   let tr := mkTr 0 100 in
-  let pa := leaf_plan cmi_model tr (AAny Eq (LNum (NLInt 404))) [(0%N, ex_blk)] in
-  let pb := leaf_plan cmi_model tr (AAny Eq (LNum (NLInt 500))) [(0%N, ex_blk)] in
+  let pa := leaf_plan cmi_model tr (AAny Eq (LNum (NLInt 404)) false) [(0%N, ex_blk)] in
+  let pb := leaf_plan cmi_model tr (AAny Eq (LNum (NLInt 500)) false) [(0%N, ex_blk)] in
   pa = Some [(0%N, [1%N])] /\ pb = Some [(0%N, [2%N])] /\
   join_file LOr pa pb = Some [(0%N, [1%N; 2%N])] /\
   ids (plan_select cmi_model ex_e tr [(0%N, ex_blk)]) = [0%N; 1%N] /\
@@ -255,6 +258,25 @@ Theorem C02_plan_union_needed :
   ids (pick ex_blk (exec_in (lookup_b 0%N (join_or_keep [(0%N, [1%N])] [(0%N, [2%N])])) tr (push_not false ex_e) ex_blk)) = [0%N].
 Proof. exact plan_union_needed. Qed.
 Print Assumptions C02_plan_union_needed.
+
+(* a negated all-column comparison never drops a block (every record of a block in which no column can satisfy the
+   positive comparison is wanted); the candidate columns are those of the positive comparison *)
+Theorem C02_plan_negated_leaf :
+  let tr := mkTr 0 100 in
+  leaf_plan cmi_model tr (AAny Eq (LNum (NLInt 404)) true) [(0%N, ex_blk)] = Some [(0%N, [1%N])] /\
+  leaf_plan cmi_model tr (AAny Eq (LNum (NLInt 777777)) true) [(0%N, ex_blk)] = Some [(0%N, [])] /\
+  leaf_plan cmi_model tr (AAny Eq (LNum (NLInt 777777)) false) [(0%N, ex_blk)] = None /\
+  ids (plan_select cmi_model (ENot (EAtom (AAny Eq (LNum (NLInt 404)) false))) tr [(0%N, ex_blk)]) = [1%N] /\
+  ids (plan_select cmi_model (ENot (EAtom (AAny Eq (LNum (NLInt 777777)) false))) tr [(0%N, ex_blk)]) = [0%N; 1%N].
+Proof. exact plan_negated_leaf. Qed.
+Print Assumptions C02_plan_negated_leaf.
+
+(* the "dropped block" half of the soundness premise, for a leaf that is not a negated all-column comparison, follows
+   from "the leaf matches no record of the block" (reading fewer columns only removes matches) *)
+Theorem C02_positive_leaf_restriction : forall cs a ev,
+  positive_atom a = true -> impl_atom a ev = false -> impl_atom_in cs a ev = false.
+Proof. exact impl_atom_in_le. Qed.
+Print Assumptions C02_positive_leaf_restriction.
 
 (* a range entry [mn, mx] that holds a value satisfying the comparison passes does{Int,Uint}PassRangeFilter (all six operators) *)
 Theorem C02_range_entry_pass_sound : forall o l mn mx v,
